@@ -8,6 +8,7 @@ kind of per-file state behind (open constructs, changed settings, macros,
 functions and symbols named after the successor's own).
 """
 import os
+import random
 import re
 import zlib
 
@@ -49,6 +50,15 @@ def plan(tier, seed):
     # short files made of statements taken from the golden programs: what the code generator remembers about the LAST statements of one
     # file (previous instruction, pending prefix, delay slot ...) must not reach the FIRST statements of the next
     cases += [{'kind': 'vocab'} for _ in range(150 if tier == 'quick' else 12000)]
+    # transition coverage: per golden program and CPU section, one-statement files for every mnemonic of the section, arranged so that
+    # EVERY ordered pair (last statement of one file, first statement of the next) occurs in one multi-file invocation
+    sections = [(p.name, cpu) for p in corpus.programs() for cpu in sorted(vocabulary(p))]
+    if tier == 'quick':
+        sections = random.Random(seed * 2654435761 % (1 << 32)).sample(sections, min(40, len(sections)))
+    cases += [{'kind': 'trans', 'prog': n, 'cpu': c} for n, c in sections]
+    only = os.environ.get('VERIF_C18_KINDS')      # development aid
+    if only:
+        cases = [c for c in cases if c['kind'] in only.split(',')]
     # guarantee that every program appears once as successor of a generated predecessor and once in a pair
     for i, n in enumerate(names):
         cases.append({'kind': 'gen', 'succ': n})
@@ -113,6 +123,101 @@ def vocab_file(rng, prog):
     return '\n'.join(lines) + ('\n' if rng.random() < 0.8 else '')
 
 
+MAX_MNEMONICS = 70
+
+
+def run_trans(case, ctx):
+    out = ctx.out
+    rng = ctx.rng
+    prog = corpus.Prog(case['prog'])
+    cpu = case['cpu']
+    lines = vocabulary(prog).get(cpu, [])
+    by_mn = {}
+    for l in lines:
+        by_mn.setdefault(l.split()[0].lower(), []).append(l)
+    mns = sorted(by_mn)
+    if len(mns) > MAX_MNEMONICS:
+        mns = sorted(rng.sample(mns, MAX_MNEMONICS))
+    reps = [rng.choice(by_mn[m]) for m in mns]
+    tag = '%s/%s' % (prog.name, cpu)
+    out.sample = {'section': tag, 'mnemonics': len(mns)}
+    flags = [f for f in prog.flags]
+    os.makedirs(ctx.path('t'), exist_ok=True)
+    os.makedirs(ctx.path('inc'), exist_ok=True)
+    prog.stage(ctx.path('inc'))         # include files the statements may refer to
+    # ---- solo references
+    solo = []
+    keep = []
+    for i, l in enumerate(reps):
+        name = 't/s%03d.asm' % i
+        ctx.write(name, '\tcpu\t%s\n%s\n' % (cpu, l))
+        r, ps, dg, nf = run_set(ctx, [name], flags, ['inc'], 'solo')
+        if r.timed_out:
+            out.inconc('timeout: solo')
+            return
+        if r.san:
+            out.violate(r.san, '%s solo %r: %s' % (tag, l, r.err.decode('latin-1')[-400:]))
+            return
+        if r.rc == 3:
+            continue                    # a fatal error ends the whole invocation: not usable in a sequence
+        keep.append(i)
+        solo.append((ps[name], [(d[0], d[1]) for d in dg[name]]))
+    if len(keep) < 2:
+        out.obs['trans_sections_too_small'] += 1
+        return
+    # ---- every ordered pair (i, j) as two consecutive files
+    seq = []
+    for a in range(len(keep)):
+        for b in range(len(keep)):
+            seq += [a, b]
+    srcs = []
+    for k, a in enumerate(seq):
+        name = 't/f%05d.asm' % k
+        ctx.write(name, '\tcpu\t%s\n%s\n' % (cpu, reps[keep[a]]))
+        srcs.append(name)
+    # (the tools accept at most 256 parameters: invocations of 200 files, each beginning with the last file of the one before)
+    ps, dg = {}, {}
+    CH = 200
+    for c0 in range(0, len(srcs), CH - 1):
+        part = srcs[c0:c0 + CH]
+        r, ps_, dg_, nf = run_set(ctx, part, flags, ['inc'], 'multi')
+        if r.timed_out:
+            out.inconc('timeout: multi')
+            return
+        if r.san:
+            out.violate(r.san, '%s multi-file: %s' % (tag, r.err.decode('latin-1')[-400:]))
+            return
+        if nf < len(part):
+            out.violate('run-stops-early', '%s: %d one-statement files given, the run ended after %d (status %s); none of them fails fatally alone' % (
+                tag, len(part), nf, r.rc))
+            return
+        for i_, n_ in enumerate(part):
+            if i_ > 0 or c0 == 0:
+                ps[n_], dg[n_] = ps_[n_], dg_[n_]
+        out.obs['invocations'] += 1
+    bad = 0
+    for k, a in enumerate(seq):
+        p0, d0 = solo[a]
+        name = srcs[k]
+        d1 = [(d[0], d[1]) for d in dg[name]]
+        if ps[name] != p0 or d1 != d0:
+            prev = reps[keep[seq[k - 1]]] if k else None
+            what = 'code file' if ps[name] != p0 else 'diagnostics'
+            out.violate('statement-depends-on-previous-file:%s' % what.replace(' ', '-'),
+                        '%s: file %r assembled right behind file %r gives %s %s, alone %s' % (
+                            tag, reps[keep[a]].strip(), (prev or '').strip(), what,
+                            (ps[name] or b'')[-12:].hex() if what == 'code file' else d1, (p0 or b'')[-12:].hex() if what == 'code file' else d0))
+            bad += 1
+            if bad >= 3:
+                break
+    out.obs['file_transitions_checked'] += len(seq) - 1
+    out.obs['files_equal_to_solo'] += len(seq) - bad
+    out.obs['invocations'] += 1
+    out.sets['trans_sections'].add(tag)
+    out.nontrivial = True
+    out.sig = ('trans', tag, len(keep))
+
+
 def stage(ctx, prog, sub):
     d = ctx.path(sub)
     os.makedirs(d, exist_ok=True)
@@ -166,6 +271,8 @@ def run_case(case, ctx):
         byflags.setdefault(tuple(p.flags), []).append(p)
     byname = {p.name: p for p in progs}
     kind = case['kind']
+    if kind == 'trans':
+        return run_trans(case, ctx)
     if kind == 'pair':
         a = byname[case['first']] if 'first' in case else rng.choice(progs)
         group = byflags[tuple(a.flags)]
